@@ -228,7 +228,7 @@ def h_reference_renaming(eng):
 def h_flatten_extends(eng):
     A = setup(eng)
     f = eng.find_function(TREE, "flatten_extends")
-    nbases = eng.choice(3)
+    nbases = eng.choice(5 if getattr(eng, "tier", "quick") == "thorough" else 3)
     eng.input("bases", nbases)
     own_wins = eng.choice(2)
     me = A.new("Class", name="D", type="model")
